@@ -298,3 +298,90 @@ def try_instance_rule(rule: dict) -> list[str]:
     except Exception as e:  # noqa: BLE001
         return mro_names(e)
     return []
+
+
+# ---- render data (mutable namespaces) -----------------------------------------------------
+
+U = 2  # "uninitialized" in specs/RenderData.tla
+
+
+class DataTree:
+    """Real render classes with DATA namespace classes (fields f1..fNF(c), no values) for one
+    model tree; `has` = classes owning a data namespace."""
+
+    def __init__(self, par: list[int], has: list[int]):
+        from term_image.renderable import DataNamespace, Renderable
+
+        self.par, self.has, self.n = list(par), sorted(has), len(par)
+        tag = next(_uid)
+        meta = type(Renderable)
+        ns_meta = type(DataNamespace)
+        self.cls = [Renderable]
+        for c in range(1, self.n + 1):
+            rc = meta(f"D{c}_{tag}", (self.cls[par[c - 1]],), {})
+            self.cls.append(rc)
+            if c in self.has:
+                body = {"__annotations__": {f"f{f}": "int" for f in range(1, nf(c) + 1)}}
+                ns_meta(f"D{c}Data_{tag}", (DataNamespace,), body, render_cls=rc)
+
+    def new(self, c: int):
+        from term_image.renderable import RenderData
+
+        return RenderData(self.cls[c])
+
+    def owners(self, c: int) -> list[int]:
+        out = []
+        while c:
+            if c in self.has:
+                out.append(c)
+            c = self.par[c - 1]
+        return out
+
+    def read_all(self, rd, c: int) -> list:
+        """Every field of every modelled namespace of the set, read one by one through
+        attribute access (U = reading raised UninitializedDataFieldError)."""
+        from term_image.renderable import UninitializedDataFieldError
+
+        own = self.owners(c)
+        vals: list = [[] for _ in range(self.n)]
+        for k in own:
+            ns = rd[self.cls[k]]
+            row = []
+            for f in range(1, nf(k) + 1):
+                try:
+                    row.append(getattr(ns, f"f{f}"))
+                except UninitializedDataFieldError:
+                    row.append(U)
+            vals[k - 1] = row
+        return vals
+
+    def execute(self, rd, op: list):
+        """op = [name, k, f, v, kw] -> (exception class name | "", returned value as list)."""
+        name, k, f, v, kw = op
+        if name not in ("GetItem", "Update", "Set", "Get", "Del", "AsDict", "GetFields"):
+            raise _UnknownOp(name)
+        try:
+            if name == "GetItem":
+                ns = rd[self.cls[k]]
+                assert ns.get_render_cls() is self.cls[k]
+                return "", []
+            ns = rd[self.cls[k]]
+            if name == "Update":
+                r = ns.update(**{f"f{g}": x for g, x in kw})
+                return "", ([] if r is None else ["update-returned", repr(r)])
+            if name == "Set":
+                setattr(ns, f"f{f}", v)
+                return "", []
+            if name == "Get":
+                return "", [getattr(ns, f"f{f}")]
+            if name == "Del":
+                delattr(ns, f"f{f}")
+                return "", []
+            if name == "AsDict":
+                dct = ns.as_dict()
+                return "", [dct[f"f{g}"] for g in range(1, len(dct) + 1)]
+            names = type(ns).get_fields()
+            ok = tuple(names) == tuple(f"f{g}" for g in range(1, len(names) + 1))
+            return "", [len(names) if ok else -1]
+        except Exception as e:  # noqa: BLE001
+            return type(e).__name__, mro_names(e)
